@@ -23,7 +23,8 @@ pub fn avoid_all() -> Avoid {
         unsub_in_group: false,
         // R10 was repaired in /repo (a member parked while it was not its turn is woken when the turn reaches it)
         group_stall: false,
-        recycled_id: true,
+        // R5 was repaired in /repo (connection tokens carry a registration serial)
+        recycled_id: false,
         persistent_unsub: true,
     }
 }
